@@ -103,5 +103,34 @@ def dens_cases():
             dict(label='DensityFinder.getRho', struct=None, key=PS + '::DensityFinder.getRho', contracts=C)]
 
 
+def vpar_init_cases():
+    """VParallelAdvection.__init__: the class invariant step() starts from.  The velocity nodes are the caller's eta_vals[3], the
+    interpolator and the spline are built on the spline space given, and the boundary rule named by the string becomes the
+    edge code the kernel contract of C11 is stated with (fEq -> 0: equilibrium outside, null -> 1: zero outside, periodic -> 2);
+    any other string is refused."""
+    out = []
+    for edge, code in (('fEq', 0), ('null', 1), ('periodic', 2), ('reflect', None)):
+        C = dict(CONTRACTS)
+        C[SI + '::SplineInterpolator1D.__init__'] = dict(abstract=True, params_order=['self', 'basis'], requires=[], ensures=[],
+                                                         modifies=[], creates={'_basis': ('expr', 'basis')})
+        C[SPL + '::Spline1D.__init__'] = dict(abstract=True, params_order=['self', 'basis'], requires=[], ensures=[], modifies=[],
+                                              creates={'_basis': ('expr', 'basis')})
+        d = dict(params={'self': {'__class__': A + '::VParallelAdvection'}, 'eta_vals': 'list4arr1',
+                         'splines': {'__class__': SPL + '::BSplines'}, 'constants': CONSTS, 'edge': ('const', edge)},
+                 requires=['len(eta_vals[3]) >= 2'], modifies=[])
+        if code is None:
+            d['raises'] = [('RuntimeError', 'True')]
+            d['ensures'] = ['False']
+        else:
+            d['ensures'] = ['self._edgeType == %d' % code, 'self._points is eta_vals[3]',
+                            'len(self._nPoints) == 1 and self._nPoints[0] == len(eta_vals[3])',
+                            'self._interpolator._basis is splines and self._spline._basis is splines',
+                            'self._constants is constants']
+        C[A + '::VParallelAdvection.__init__'] = d
+        out.append(dict(label='VParallelAdvection.__init__ edge=%s' % edge, struct=None, key=A + '::VParallelAdvection.__init__',
+                        contracts=C))
+    return out
+
+
 def cases(tier, rng=None):
-    return vpar_cases()
+    return vpar_cases() + vpar_init_cases()
